@@ -108,9 +108,9 @@ def cliOp (args impl : List String) : Option (String × String) := do
             (triple "pushed").getD 3 0 > 0 ∧ (triple "pushed").take 3 ≠ stats then
           "FAIL pushed-metrics-differ-from-the-result"
         else if (match (get "sigint").bind String.toInt? with
-            | some sg => decide (n "ret" > sg + ((get "bodyms").bind String.toInt?).getD 0 + 1500) | none => false) then
+            | some sg => decide (n "ret" > sg + ((get "bodyms").bind String.toInt?).getD 0 + 1500 + max 0 (n "stall")) | none => false) then
           "FAIL interrupted-command-kept-running"
-        else if (match (get "retmax").bind String.toInt? with | some m => decide (n "ret" > m) | none => false) then
+        else if (match (get "retmax").bind String.toInt? with | some m => decide (n "ret" > m + max 0 (n "stall")) | none => false) then
           "FAIL command-did-not-return-once-its-run-was-over"
         else
           -- the run lasts as long as the flags say (only when neither the iteration limit nor the trigger's own
